@@ -295,7 +295,8 @@ POOL_ENTRIES = [
     E("DropQuery", "DropQuery",
       {"cluster_algo_dict": {"random_state": 0, "n_init": 1}},
       ("clf", "pwc"), feat=False, sw=None, cluster=True),
-    E("Falcun", "Falcun", {}, ("clf", "pwc"), sw=None, sel="sample"),
+    E("Falcun", "Falcun", {}, ("clf", "pwc"), sw=None, sel="sample",
+      alt=[{"gamma": 0}, {"gamma": 1}, {"gamma": 0.5}]),
     E("GreedySamplingX", "GreedySamplingX", {}, None, task="any",
       sw="row0", arb_idx=True,
       alt=[{"metric": "cityblock"},
